@@ -102,7 +102,8 @@ def hook_specs(draw, horizon: int = 25, max_hooks: int = 5):
 def sim_cases(draw, n_markets=(1, 3), index_prob=2, vol_zero=None, ticks=TICKS, groups=(1, 2), agents_per_group=(1, 4),
               hft=True, builtin=False, n_sessions=(1, 3), steps=(1, 8), placement=None, execution=None, caps=(0, 4),
               hcaps=(0, 3), rates=(0.0, 1.0, 0.5), probes=True, spec=None, illegal=False, correlations=False,
-              max_actions=5, horizon=25, decline_weight=1, always_events=False, cash=(1000, 10000.5, 1e6)):
+              max_actions=5, horizon=25, decline_weight=1, always_events=False, cash=(1000, 10000.5, 1e6),
+              random_endowment=False):
     nm = draw(st.integers(*n_markets))
     names = [f"M{i}" for i in range(nm)]
     cfg: Dict[str, Any] = {"simulation": {"markets": list(names), "agents": [], "sessions": []}}
@@ -127,6 +128,10 @@ def sim_cases(draw, n_markets=(1, 3), index_prob=2, vol_zero=None, ticks=TICKS, 
         cfg[gname] = {"class": "VScriptedAgent", "numAgents": draw(st.integers(*agents_per_group)), "markets": acc,
                       "assetVolume": draw(st.integers(0, 50)), "cashAmount": draw(st.sampled_from(list(cash))),
                       "scripts": draw(st.lists(prog, min_size=1, max_size=3))}
+        if random_endowment and draw(st.booleans()):
+            # randomised endowments: one draw per accessible market, in the order the runner visits them
+            cfg[gname]["assetVolume"] = draw(st.sampled_from([[10, 100], {"uniform": [5, 60]}, {"normal": [50, 5]}]))
+            cfg[gname]["cashAmount"] = draw(st.sampled_from([[1000, 2000], {"expon": [5000]}, 7777]))
         cfg["simulation"]["agents"].append(gname)
     if hft and draw(st.integers(0, 2)) > 0:
         acc = draw(st.lists(st.sampled_from(all_markets), min_size=1, max_size=len(all_markets), unique=True))
